@@ -157,6 +157,7 @@ class CFunc:
         self.returns = []
         self.fors = []        # dict(var, lo, op, hi, inc, node, loops, guards, line)
         self.ifs = []
+        self.jumps = []       # dict(kind, loops, guards, line)
         self.globals_used = set()
         self._cur = self.line
         self._walk(self.body, [], [])
@@ -308,6 +309,8 @@ class CFunc:
                                    guards=list(guards), line=self._cur, node=n))
             if callee == 'free':
                 self.frees.append(dict(arg=unparen(S(args[0])), loops=list(loops), guards=list(guards), line=self._cur))
+        if k in ('ContinueStmt', 'BreakStmt', 'GotoStmt'):
+            self.jumps.append(dict(kind=k, loops=list(loops), guards=list(guards), line=self._cur))
         if k == 'ReturnStmt':
             self.returns.append(dict(value=n['inner'][0] if n.get('inner') else None, line=self._cur, loops=list(loops),
                                      guards=list(guards)))
